@@ -70,6 +70,8 @@ PARAMS = (
     ('three', {'a': '1', 'b': '2', 'c': '3'}),
     ('nonascii', {'k': 'héllo ✓'}),
     ('urlenc', {'k': 'a b&c=d'}),
+    ('blank', {'k': '', 'e': 'x'}),                     # a parameter with an empty value is still a parameter
+    ('percent', {'k': '100%25', 'p': '%41+%2B'}),       # values that look encoded themselves: decoded exactly once
 )
 P_ONE = 1
 
